@@ -774,7 +774,7 @@ class Engine:
         k = ty['k']
         if k == 'tuple':
             return ('adt', '(tuple)', 0, tuple(self.mk_sym(t, '%s.%d' % (name, i), st) for i, t in enumerate(ty['elems'])))
-        if k == 'array' and ty.get('len') is not None and ty['len'] <= 64:
+        if k == 'array' and ty.get('len') is not None and ty['len'] <= 512:
             return ('arr', tuple(self.mk_sym(ty['elem'], '%s[%d]' % (name, i), st) for i in range(ty['len'])))
         if k == 'ref':
             cell = ('H', name)
